@@ -235,6 +235,7 @@ impl<'a> Interp<'a> {
         if null_data {
             if !fh.is_null() {
                 self.note_handle(fh as usize);
+                unsafe { (self.storm.SFileFindClose)(fh) };
                 return Err(Fail::new("findfirst-null-data-accepted", "SFileFindFirstFile with lpFindFileData = NULL returned a handle".to_string()));
             }
             return Ok(());
@@ -244,16 +245,18 @@ impl<'a> Interp<'a> {
             (Some(e), true) => Err(Fail::new("findfirst-fails-where-rust-lists", format!("SFileFindFirstFile({ms:?}) found nothing (error {}), the Rust API lists {:?}", self.storm.last_error(), e.iter().map(|x| &x.0).collect::<Vec<_>>()))),
             (Some(e), false) if e.is_empty() => {
                 self.note_handle(fh as usize);
+                unsafe { (self.storm.SFileFindClose)(fh) };
                 Err(Fail::new("findfirst-finds-where-rust-lists-nothing", format!("SFileFindFirstFile({ms:?}) returned a handle, the Rust API lists no matching file")))
             }
             (None, true) => Ok(()),
             (_, false) => {
                 let want = expect.as_ref().map(|e| e[0].clone());
-                self.check_find_data(&buf, want.as_ref(), &universe)?;
                 if universe.iter().any(|n| n.len() >= MAX_PATH) {
                     self.feat("longname");
                 }
-                self.register("SFileFindFirstFile", fh as usize, Obj::S(FindObj { live: true, orphan: false, arch: v, expect, universe, idx: 1 }))
+                // register first: a failed check below must not leak the handle into the next history
+                self.register("SFileFindFirstFile", fh as usize, Obj::S(FindObj { live: true, orphan: false, arch: v, expect, universe: universe.clone(), idx: 1 }))?;
+                self.check_find_data(&buf, want.as_ref(), &universe)
             }
         }
     }
